@@ -502,6 +502,10 @@ func toFloatPair(x, y any) (float64, float64, bool) {
 func toInt(v any) (int, bool, bool) {
 	switch v := v.(type) {
 	case decimal128.Decimal:
+		if v.IsNaN() || !decimal128.Floor(v).Equal(v) {
+			return 0, true, false
+		}
+
 		i, ok := v.Int64()
 		if !ok {
 			return 0, true, false
@@ -515,11 +519,12 @@ func toInt(v any) (int, bool, bool) {
 	case json.Number:
 		i, err := v.Int64()
 		if err != nil {
-			if _, err = v.Float64(); err != nil {
+			d, err := decimal128.Parse(v.String())
+			if err != nil {
 				return 0, false, false
 			}
 
-			return 0, true, false
+			return toInt(d)
 		}
 
 		if i > math.MaxInt || i < math.MinInt {
